@@ -223,6 +223,7 @@ def replay(pid, rec):
     spec = rec["scenario"]
     spec = spec_from_json(spec) if "subnets" in spec else spec
     ctx = make_ctx(spec, rec["binding"])
-    res = explore(ctx, [])
+    from .sweep import replay_explore
+    res = replay_explore(ctx)
     post_explore(ctx, res, ["C12"], {})
     return [v for v in ctx.violations if v["kind"] == rec["kind"]] or ctx.violations
